@@ -51,11 +51,18 @@ def _path(ex, cls, theta_em, theta_rc, g, rs, rp, tof):
 
     def attenuation(f, *a, **k):
         calls.append(f)
-        fa = np.abs(f)
-        return g(fa)
+        return g(_canon(np.abs(f)))
     d['attenuation'] = attenuation
     p._att_calls = calls
     return p
+
+
+def _canon(f):
+    """frequencies are compared up to 9 significant digits (k/(n dt) computed in two orders
+    differs in the last bit; the attenuation model is taken to be insensitive to that)"""
+    if isinstance(f, np.ndarray):
+        return np.array([_canon(x) for x in f.ravel()], dtype=float).reshape(f.shape)
+    return float('%.9g' % float(f))
 
 
 def _grid(n, interp):
@@ -94,7 +101,7 @@ def h_propagate(ex):
     times = [t0 + i * DT for i in range(n)]
     sig = Signal(ex.array(times), ex.array(xs), value_type='field')
     grid = _grid(n, interp)
-    G = {round(float(f), 3): g(abs(float(f))) for f in grid}
+    G = {round(float(f), 3): g(_canon(abs(float(f)))) for f in grid}
 
     def table(f):
         """interp(f; grid, attenuation(grid)) for a concrete f"""
@@ -104,8 +111,9 @@ def h_propagate(ex):
         return sum(wi * vi for wi, vi in zip(w, vals) if wi != 0.0)
     kw = {} if cls is rt.UniformRayTracePath and interp is None else \
         {'attenuation_interpolation': interp}
-    if cls is rt.UniformRayTracePath:
-        table = lambda f: g(abs(float(f)))
+    if cls is rt.UniformRayTracePath or interp is None:
+        # no interpolation: the attenuation itself at every FFT frequency
+        table = lambda f: g(_canon(abs(float(f))))
     if not use_pol:
         out = path.propagate(signal=sig, **kw)
         ex.close(out.times, [t + tof for t in times], 'delayed-by-tof', tol=1e-15)
@@ -209,8 +217,51 @@ def h_fresnel(ex):
     for nm, r in (('s', r_s), ('p', r_p)):
         if isinstance(r, (P.SymComplex, complex)):
             mag2 = P.cabs2(r) if ex.sym else abs(r) ** 2
-            ex.close(mag2, 1.0 if ex.twin != 'tir-half' else 0.5, 'total-internal-reflection:|r|=1:'
-                     + nm, tol=1e-9)
+            ex.equal(mag2, 1.0 if ex.twin != 'tir-half' else 0.5, 'total-internal-reflection:|r|=1:'
+                     + nm)
+            ex.note('tir')
+        else:
+            ex.le(r, 1.0, 'real-branch:r<=1:' + nm, tol=1e-9)
+            ex.le(-1.0, r, 'real-branch:r>=-1:' + nm, tol=1e-9)
+            ex.note('real')
+
+
+def h_fresnel_basic(ex):
+    """graded-index path reflecting off the surface: coefficient magnitudes <= 1, exactly 1
+    under total internal reflection; (1, 1) for direct paths and paths turning below the
+    surface."""
+    import pyrex.ray_tracing as rt
+    from pyrex.ice_model import AntarcticIce
+    ice = AntarcticIce()
+    n2 = ex.real('n_above', 1.0, 1.6)
+    ice.index_above = n2
+    z0 = ex.case.get('z0', -150.0)
+    t0 = ex.real('theta0', 0.02, math.pi / 2 - 0.02)
+    direct = ex.boolean('direct')
+    p = rt.BasicRayTracePath.__new__(rt.BasicRayTracePath)
+    d = p.__dict__
+    d['from_point'] = ex.array([0.0, 0.0, z0])
+    d['to_point'] = ex.array([100.0, 0.0, -80.0])
+    d['ice'] = ice
+    d['dz'] = 1.0
+    d['direct'] = direct
+    d['theta0'] = t0
+    d['_static_attrs'] = ['from_point', 'to_point', 'theta0', 'ice', 'dz', 'direct']
+    n0 = float(ice.index(z0))
+    ns = float(ice.index(0.0))
+    beta = n0 * np.sin(t0)
+    ex.assume(P.sb_or(beta <= ns - 1e-3, beta >= ns + 1e-3) if ex.sym else abs(beta - ns) >= 1e-3)
+    r_s, r_p = p.fresnel
+    reaches = (beta < ns)
+    if direct or not reaches:
+        ex.close([r_s, r_p], [1.0, 1.0], 'no-surface-reflection-has-unit-coefficients', tol=0.0)
+        ex.note('unit')
+        return
+    for nm, r in (('s', r_s), ('p', r_p)):
+        if isinstance(r, (P.SymComplex, complex)):
+            mag2 = P.cabs2(r) if ex.sym else abs(r) ** 2
+            ex.equal(mag2, 1.0 if ex.twin != 'tir-half' else 0.5,
+                     'total-internal-reflection:|r|=1:' + nm)
             ex.note('tir')
         else:
             ex.le(r, 1.0, 'real-branch:r<=1:' + nm, tol=1e-9)
@@ -219,18 +270,82 @@ def h_fresnel(ex):
 
 
 def h_attenuation(ex):
-    """the uniform path's attenuation lies in (0,1], equals 1 at f = 0 ... and does not grow
-    with |f| (shipped attenuation model); it is even in f."""
+    """the uniform path's attenuation exp(-sum dp / L(z_i,|f|)) lies in (0,1], does not grow
+    with |f| whenever the attenuation length does not grow with f (decided per shipped ice
+    model in C16), and is even in f - for an ARBITRARY positive attenuation length."""
     import pyrex.ray_tracing as rt
     from pyrex.ice_model import UniformIce
     ice = UniformIce(1.5, valid_range=(-8.0, 0.0))
     bx = ex.case.get('bx', 3.0)
-    tr = rt.UniformRayTracer(ex.const_array([0.0, 0.0, -2.5]), ex.const_array([bx, 0.0, -4.75]), ice)
-    p = tr.solutions[0]
+    As = {}
+
+    def attenuation_length(zs, fa):
+        # the inverse attenuation length A = 1/L is the uninterpreted function (so the
+        # exponent stays linear in the unknowns); L = 1/A is what the path code receives
+        rows = []
+        for z in np.asarray(zs, dtype=float).ravel():
+            A = As.setdefault(float(z), UFun(ex, 'A@%r' % float(z), lo=1e-4, hi=1.0,
+                                             concrete=lambda f, z=float(z):
+                                             1.0 / (1500.0 - 100 * z - 1e-7 * f)))
+            rows.append([1 / A(f) for f in fa])
+        return ex.array(rows) if ex.sym else np.array(rows, dtype=float)
+    ice.attenuation_length = attenuation_length
+    kmax = ex.case.get('kmax', 0)
+
+    class T(rt.UniformRayTracer):
+        max_reflections = kmax
+    tr = T(ex.const_array([0.0, 0.0, -2.5]), ex.const_array([bx, 0.0, -4.75]), ice)
+    p = tr.solutions[ex.case.get('sol', 0)]
+    f1 = ex.real('f1', 1e6, 4e9)
+    f2 = ex.real('f2', 1e6, 4e9)
+    ex.assume(f1 < f2)
+    a1 = p.attenuation(ex.array([f1, f2, -f1]), dz=ex.case.get('dz', 2))
+    for z, A in As.items():
+        ex.assume(A(f1) <= A(f2))        # L(z, f) does not grow with f
+    ex.lt(0.0, a1[0], 'attenuation>0')
+    ex.le(a1[0], 1.0, 'attenuation<=1', tol=1e-12)
+    ex.le(a1[1], a1[0] if ex.twin != 'growing' else a1[0] - 0.1,
+          'attenuation-does-not-grow-with-frequency', tol=1e-9)
+    ex.close(a1[2], a1[0], 'attenuation-even-in-f', tol=0.0)
+
+
+def h_attenuation_graded(ex):
+    """graded-index paths (numeric trapezoid integral of BasicRayTracePath, change-of-variable
+    integral of SpecializedRayTracePath, direct and turning/reflected) with an ARBITRARY
+    positive attenuation length that does not grow with f: attenuation in (0,1], not growing
+    with |f|, even in f."""
+    import pyrex.ray_tracing as rt
+    from pyrex.ice_model import AntarcticIce
+    ice = AntarcticIce()
+    As = {}
+
+    def attenuation_length(zs, fa):
+        rows = []
+        for z in np.asarray(zs, dtype=float).ravel():
+            A = As.setdefault(float(z), UFun(ex, 'A@%r' % float(z), lo=1e-4, hi=1.0,
+                                             concrete=lambda f, z=float(z):
+                                             1.0 / (1500.0 - 0.1 * z - 1e-7 * f)))
+            rows.append([1 / A(f) for f in np.asarray(fa).ravel()])
+        return ex.array(rows) if ex.sym else np.array(rows, dtype=float)
+    ice.attenuation_length = attenuation_length
+    cls = rt.SpecializedRayTracePath if ex.case['cls'] == 'specialized' else rt.BasicRayTracePath
+    p = cls.__new__(cls)
+    d = p.__dict__
+    z0, z1 = ex.case['z']
+    d['from_point'] = np.array([0.0, 0.0, z0])
+    d['to_point'] = np.array([100.0, 0.0, z1])
+    d['ice'] = ice
+    d['dz'] = ex.case.get('dz', 25.0)
+    d['direct'] = ex.case['direct']
+    d['theta0'] = ex.case['theta0']
+    d['_static_attrs'] = ['from_point', 'to_point', 'theta0', 'ice', 'dz', 'direct']
     f1 = ex.real('f1', 1e6, 4e9)
     f2 = ex.real('f2', 1e6, 4e9)
     ex.assume(f1 < f2)
     a1 = p.attenuation(ex.array([f1, f2, -f1]))
+    ex.note('nodes=%d' % len(As))
+    for z, A in As.items():
+        ex.assume(A(f1) <= A(f2))
     ex.lt(0.0, a1[0], 'attenuation>0')
     ex.le(a1[0], 1.0, 'attenuation<=1', tol=1e-12)
     ex.le(a1[1], a1[0] if ex.twin != 'growing' else a1[0] - 0.1,
@@ -271,10 +386,24 @@ HARNESSES = [
     Harness('fresnel', h_fresnel, _mods, encodes=_enc, twins=('tir-half',),
             cases={'quick': [{'up': True}, {'up': False}], 'thorough': [{'up': True}, {'up': False}]},
             budget={'quick': {'wall_s': 300, 'query_timeout_ms': 60000, 'max_paths': 600}}),
+    Harness('fresnel-graded', h_fresnel_basic, _mods, encodes=_enc, twins=('tir-half',),
+            cases={'quick': [{'z0': -150.0}], 'thorough': [{'z0': -150.0}, {'z0': -30.0}, {'z0': -900.0}]},
+            budget={'quick': {'wall_s': 300, 'query_timeout_ms': 60000, 'max_paths': 600}}),
     Harness('attenuation', h_attenuation, _mods, encodes=_enc, twins=('growing',),
-            cases={'quick': [{'bx': 3.0}], 'thorough': [{'bx': 3.0}, {'bx': 40.0}]},
+            cases={'quick': [{'bx': 3.0}, {'bx': 3.0, 'kmax': 1, 'sol': 1, 'dz': 4}],
+                   'thorough': [{'bx': 3.0}, {'bx': 40.0, 'dz': 1}, {'bx': 3.0, 'kmax': 1, 'sol': 1, 'dz': 4},
+                                {'bx': 3.0, 'kmax': 1, 'sol': 2, 'dz': 4}]},
             budget={'quick': {'wall_s': 300, 'query_timeout_ms': 90000}}),
 ]
+
+_G = [{'cls': c, 'z': z, 'direct': dr, 'theta0': t}
+      for c in ('basic', 'specialized')
+      for (z, dr, t) in (((-150.0, -60.0), True, 0.9), ((-150.0, -60.0), False, 0.8),
+                         ((-60.0, -150.0), True, 2.4))]
+HARNESSES.append(
+    Harness('attenuation-graded', h_attenuation_graded, _mods, encodes=_enc, twins=('growing',),
+            cases={'quick': _G[:4], 'thorough': _G + [dict(g, dz=10.0) for g in _G]},
+            budget={'quick': {'wall_s': 300, 'query_timeout_ms': 90000}}))
 
 BOUNDS = {
     'quick': {'signals': '2-3 samples symbolic in [-1,1]', 'attenuation': 'an arbitrary function '
@@ -290,4 +419,5 @@ OUTSIDE = ["the numeric attenuation integral of the graded-index paths (hundreds
            "monotonicity per ice model is C16", "energy inequality: follows from C05's passive "
            "lemma chain with |attenuation x fresnel| <= 1 (decided here) - not re-proved",
            "layered paths", "azimuths other than the coordinate planes (rotation covariance)"]
-ASSUMPTIONS = ["np.interp / np.logspace per documentation"]
+ASSUMPTIONS = ["np.interp / np.logspace per documentation",
+               "the stand-in attenuation function is insensitive to changes of f below 1e-9 relative"]
